@@ -5,7 +5,7 @@ from functools import partial, wraps
 from typing import Callable, Dict, Type, TypeVar
 
 from ..utils import exceptions as exc
-from ..utils.compat import is_classvar, is_final
+from ..utils.compat import is_classvar, is_final, class_forward_ref, evaluate_forward_ref
 from ..utils.datastructures import unprovided
 from ..utils.functional import pop
 from ..utils.transform import TypeTransformer
@@ -122,6 +122,14 @@ class ClassParser(BaseParser):
         global_vars = self.globals
 
         for key, annotation in annotations.items():
+            if isinstance(annotation, str):
+                # postponed annotations: ClassVar[...] / Final[...] are only recognizable once evaluated
+                try:
+                    special = evaluate_forward_ref(class_forward_ref(annotation), global_vars, None)
+                except Exception:  # noqa
+                    special = None
+                if is_classvar(special) or is_final(special):
+                    annotation = special
             if (
                 not self.validate_class_field_name(key)
                 or is_classvar(annotation)
